@@ -68,5 +68,6 @@ func main() {
 	genSelects(pkg)
 	genTransitions(pkg)
 	genDecisions(pkg)
+	genLocks(pkg)
 	genAccess(pkgs)
 }
